@@ -21,15 +21,18 @@ from koala import voronization, graph_utils
 from koala.lattice import Lattice
 
 DRIVERS = ("c03",)
-MODEL_TARGETS = ["Model/Lattice.vo", "Model/Delaunay.vo", "Model/VoronoiPost.vo"]
-TARGETS = ["Proofs/DelaunayFacts.vo", "Proofs/VoronoiPostFacts.vo"]
+MODEL_TARGETS = ["Model/Lattice.vo", "Model/Delaunay.vo", "Model/VoronoiPost.vo", "Model/VoronoiPeriodic.vo"]
+TARGETS = ["Proofs/DelaunayFacts.vo", "Proofs/VoronoiPostFacts.vo", "Proofs/VoronoiPostCorrect.vo"]
 LEVEL = "proof"
 TRUST = [
     "PARTIAL, checker-level: Qhull (scipy.spatial.Voronoi) is not modelled; the C03_* theorems are about the certificate checkers "
     "check_delaunay / check_dual of coq/Model/Delaunay.v, which are run (extracted) on every generated input and on koala's output",
     "the code after `Voronoi(points)` (voronization.py:82-204) is modelled by hand in coq/Model/VoronoiPost.v (modelled, not verified) and tied to the code by K: "
     "same scipy Voronoi record (Qhull is deterministic; recomputed by the harness on the replicated points), output arrays compared exactly (positions to 1e-12); "
-    "the C03_post_* theorems are about that model; post_correct (model output passes check_dual for an exact periodic Voronoi record) is NOT proved",
+    "the C03_post_* theorems are about that model; post_correct is proved at the graph level (C03_post_correct_graph / _trivalent: for a record that is periodic near the unit "
+    "cell -- Model/VoronoiPeriodic.pvor_ok, evaluated per case by the extracted checker, counts H_* in `extra` -- the output has exactly the Voronoi vertices in the cell as vertices, "
+    "exactly the finite ridges touching the cell, one per translation class, as edges, crossing = cell difference, degree = number of ridges, 2E = 3V); the link from there to "
+    "check_dual (the seeds around a kept vertex form the certificate's triangle) and the plaquette clauses are NOT proved",
     "KDTree.query(k=1) is modelled as the first vertex of minimal exact squared distance (C03_post_nearest_spec); queries whose runner-up is within 1e-9 are counted and skipped; "
     "the enumeration order of the CPython set `list(set(pbc_ridges.flatten()))` (vertex numbering, not constrained by the property) is an input of the model's "
     "re-indexing step with a checked contract (no repetition, exactly the surviving vertices): the harness recovers it from koala's positions (each within 1e-12 of "
@@ -462,9 +465,11 @@ def k_run(ctx, queue):
             else:
                 ex["K_both_error"] += 1
     outs = run_driver_parallel(ctx.exe["c03"], [q["line"] for q in items], jobs=8)
+    hyps_run(ctx, items)
     stage2 = []
     for q, o in zip(items, outs):
         case, shift = q["case"], q["shift"]
+        _xc_push(ctx, "post", q["line"], o, len(q["points"]))
         if "error" in o:
             raise RuntimeError(f"c03 driver error {o['error']} on {case}")
         # ---- replication (exact model vs koala's float additions): order of the copies, padding rule
@@ -473,6 +478,7 @@ def k_run(ctx, queue):
             Sp = common_scale(pts)
             line = " ".join(["replicate", hx(Sp), str(len(pts))] + [hx(v) for xy in exact_ints(pts, Sp) for v in xy])
             r = run_driver(ctx.exe["c03"], [line])[0]
+            _xc_push(ctx, "rep", line, r, len(pts))
             mp = np.array(parse_pairs(r["points"], lambda c: c.z()), dtype=object).reshape(-1, 2)
             mpf = np.array([[float(Fraction(int(a), Sp)), float(Fraction(int(b), Sp))] for a, b in mp]).reshape(-1, 2)
             try:
@@ -572,8 +578,10 @@ def k_run(ctx, queue):
         q["sorted_out"] = o
         stage2.append((q, " ".join(toks)))
     outs2 = run_driver_parallel(ctx.exe["c03"], [t for _, t in stage2], jobs=8)
-    for (q, _), o in zip(stage2, outs2):
+    for (q, l2), o in zip(stage2, outs2):
         case = q["case"]
+        if getattr(ctx, "xc", None) is not None:
+            ctx.xc["reindex"].append((q["line"], l2, o))
         if "error" in o or "err" in o:
             ctx.k_mismatch(f"model re-indexing rejected the set enumeration: {o.get('err') or o.get('error')}", case)
             continue
@@ -609,6 +617,167 @@ def k_run(ctx, queue):
                            (f", max difference {np.max(np.abs(mp - Lpos)):.3g})" if mp.shape == Lpos.shape else ")"), case)
             continue
         ex["K_agree"] = ex.get("K_agree", 0) + 1
+
+
+H_MAX_N = 80
+
+
+def hyps_run(ctx, items):
+    """The hypotheses of the C03_post_correct_* theorems (Model/VoronoiPeriodic.post_hyps: pvor_ok = the record is periodic near
+    the unit cell, trivalent_ok = three finite ridges at every vertex in the cell), evaluated by the extracted checker on scipy's
+    record of every case with N <= 80.  Recorded: how often they hold (they can only hold where the replication is exact in
+    floating point: shift_vertices=True with dyadic inputs, where the vertices are sums of three replicated seeds; Qhull's float
+    circumcentres of translated triangles differ in the last bits).  Where both hold and K agrees, the theorems' conclusion
+    (every vertex has three edge ends, 2E = 3V) is re-checked on koala's arrays: a failure there contradicts theorem + K."""
+    ex = ctx.res.extra
+    sel = [q for q in items if len(q["points"]) <= H_MAX_N]
+    outs = run_driver_parallel(ctx.exe["c03"], ["hyps" + q["line"][4:] for q in sel], jobs=8)
+    for k in ("H_evaluated", "H_stages_fail", "H_pvor_true", "H_pvor_true_trivalent_true", "H_conclusion_checked_on_koala"):
+        ex.setdefault(k, 0)
+    by = ex.setdefault("H_pvor_true_by_family", {})
+    for q, o in zip(sel, outs):
+        if "error" in o:
+            raise RuntimeError(f"c03 driver error {o['error']} (hyps) on {q['case']}")
+        _xc_push(ctx, "hyps", "hyps" + q["line"][4:], o, len(q["points"]))
+        h = o["hyps"]
+        ex["H_evaluated"] += 1
+        fam = f"shift={int(q['shift'])}/" + ("dyadic" if q["case"].get("bits") else "float64")
+        by.setdefault(fam, [0, 0])
+        by[fam][1] += 1
+        if h[0] == "N":
+            ex["H_stages_fail"] += 1
+            continue
+        pv, tri = h[0] == "1", h[1] == "1"
+        q["hyps"] = (pv, tri)
+        if pv:
+            ex["H_pvor_true"] += 1
+            by[fam][0] += 1
+        if pv and tri:
+            ex["H_pvor_true_trivalent_true"] += 1
+            if "arrays" in q:
+                _, Ledges, _ = q["arrays"]
+                deg = np.bincount(np.asarray(Ledges, dtype=int).flatten(), minlength=len(q["arrays"][0]))
+                ex["H_conclusion_checked_on_koala"] += 1
+                if np.any(deg != 3) or 2 * len(Ledges) != 3 * len(q["arrays"][0]):
+                    ctx.k_mismatch("pvor_ok and trivalent_ok hold for scipy's record (C03_post_correct_trivalent applies to the model) but koala's "
+                                   f"lattice is not trivalent: degrees {sorted(set(int(d) for d in deg))}, V={len(q['arrays'][0])}, E={len(Ledges)}", q["case"])
+
+
+# ------------------------------------------------------------------ extraction cross-check (DESIGN 1.3)
+def _xc_push(ctx, kind, line, out, n):
+    xc = getattr(ctx, "xc", None)
+    if xc is not None:
+        xc[kind].append((line, out, n))
+
+
+def coq_crosscheck(ctx):
+    """Extraction cross-check: for a small random sample of the lines sent to the c03 driver (commands c03, post, hyps, reindex,
+    replicate; small N) the driver's answers are re-derived INSIDE Coq by vm_compute on Gallina literals parsed back from the very
+    text the driver received, and must coincide:
+      c03       (check_delaunay, check_dual, dense_ok 1/3, dense_ok 2/3)                         N <= 8
+      post      post_stages: scale, shifted vertices, ridges with crossings, sorted survivors, tie margins (or the error)   N <= 12
+      hyps      post_hyps (pvor_ok, trivalent_ok)                                                same records
+      reindex   reindex vs order es                                                              same cases
+      replicate (padding_of, generate_point_array)"""
+    import xcheck as X
+    xc = ctx.xc
+    quick = ctx.tier == "quick"
+    rng = np.random.default_rng([ctx.seed, 3, 99])
+
+    def pick(items, nmax, k):
+        small = [it for it in items if it[2] <= nmax and "error" not in it[1]]
+        if not small:
+            return []
+        idx = sorted(rng.choice(len(small), size=min(len(small), k), replace=False).tolist())
+        return [small[i] for i in idx]
+
+    Z, N, B = X.z, X.nat, X.boolean
+    zp, npair = X.zpair, X.natpair
+    site = X.pair(N, zp)
+    body = [
+        "Definition stages (r : result (Z * list pt * (list edge * list (margin * margin)))) :=",
+        "  match r with Err e => inl e | Ok (S', vs, (es, ms)) => inr (S', vs, es, sorted_nodup (edge_ends es), ms) end.",
+    ]
+    g = lambda lhs, rhs: body.append(X.goal(lhs, rhs))
+    counts = {"c03": 0, "post": 0, "hyps": 0, "reindex": 0, "replicate": 0}
+    # ---- certificate checkers
+    for n, (line, o, _) in enumerate(pick(xc["cert"], 8, 6 if quick else 30)):
+        c = Cursor(line.split()[1:])
+        S, w, tol, shift = c.z(), c.z(), c.z(), c.next() == "1"
+        P = c.list(lambda: (c.z(), c.z()))
+        C = c.list(lambda: (((c.int(), (c.z(), c.z())), (c.int(), (c.z(), c.z())), (c.int(), (c.z(), c.z()))), (c.z(), c.z(), c.z(), c.z())))
+        LS, LP, LE, LC = X.read_lattice(c)
+        vt = c.list(c.int)
+        tri = lambda t: f"({site(t[0])}, {site(t[1])}, {site(t[2])})"
+        box = lambda b: "(" + ", ".join(Z(v) for v in b) + ")"
+        body.append(f"Definition cP{n} : list pt := {X.lst(zp, P)}.")
+        body.append(f"Definition cC{n} : list (tri * box) := {X.lst(lambda tb: f'({tri(tb[0])}, {box(tb[1])})', C)}.")
+        body.append(f"Definition cL{n} : lattice := {X.lattice_ints(LS, LP, LE, LC)}.")
+        g(f"(check_delaunay {Z(S)} {Z(w)} cP{n} cC{n}, check_dual {Z(S)} {Z(tol)} {B(shift)} cP{n} cC{n} cL{n} {X.natlist(vt)}, "
+          f"dense_ok {Z(S)} 1 3 cP{n} cC{n}, dense_ok {Z(S)} 2 3 cP{n} cC{n})",
+          f"({B(o['delaunay'][0] == '1')}, {B(o['dual'][0] == '1')}, {B(o['dense13'][0] == '1')}, {B(o['dense23'][0] == '1')})")
+        counts["c03"] += 1
+    # ---- post-processing stages, hypotheses, re-indexing
+    err_lit = lambda t: (f"({t[0]} {N(int(t[1]))})" if len(t) > 1 else t[0])
+    chosen = pick(xc["post"], 12, 5 if quick else 25)
+    hyps = {line: o for line, o, _ in xc["hyps"]}
+    rei = {id_: (line, o) for id_, line, o in xc["reindex"]}
+    for n, (line, o, _) in enumerate(chosen):
+        c = Cursor(line.split()[1:])
+        shift, S = c.next() == "1", c.z()
+        P = c.list(lambda: (c.z(), c.z()))
+        V = c.list(lambda: (c.z(), c.z()))
+        RV = c.list(lambda: (c.z(), c.z()))
+        RP = c.list(lambda: (c.int(), c.int()))
+        body.append(f"Definition pP{n} : list pt := {X.lst(zp, P)}.")
+        body.append(f"Definition pV{n} : vor := mkVor {X.lst(zp, V)} {X.lst(zp, RV)} {X.lst(npair, RP)}.")
+        lhs = f"stages (post_stages {B(shift)} {Z(S)} pP{n} pV{n})"
+        if "err" in o:
+            g(lhs, f"inl {err_lit(o['err'])}")
+        else:
+            S2 = unhx(o["scale"][0])
+            VS = parse_pairs(o["verts"], lambda c: c.z()) if shift else V
+            cu = Cursor(o["pbc"])
+            pbc = cu.list(lambda: ((cu.int(), cu.int()), (cu.z(), cu.z())))
+            srt = [int(t) for t in o["sorted"][1:]]
+            cm = Cursor(o["margins"])
+            oz = lambda: (lambda t: None if t == "N" else unhx(t))(cm.next())
+            ms = cm.list(lambda: ((cm.z(), oz()), (cm.z(), oz())))
+            mar = X.pair(Z, X.option(Z))
+            g(lhs, f"inr ({Z(S2)}, {X.lst(zp, VS)}, {X.lst(X.pair(npair, zp), pbc)}, {X.natlist(srt)}, {X.lst(X.pair(mar, mar), ms)})")
+        counts["post"] += 1
+        h = hyps.get("hyps" + line[4:])
+        if h is not None and "error" not in h:
+            t = h["hyps"]
+            g(f"post_hyps {B(shift)} {Z(S)} pP{n} pV{n}", "None" if t[0] == "N" else f"Some ({B(t[0] == '1')}, {B(t[1] == '1')})")
+            counts["hyps"] += 1
+        if line in rei:
+            l2, o2 = rei[line]
+            c = Cursor(l2.split()[1:])
+            VS = c.list(lambda: (c.z(), c.z()))
+            order = c.list(c.int)
+            es = c.list(lambda: ((c.int(), c.int()), (c.z(), c.z())))
+            lhs = f"reindex {X.lst(zp, VS)} {X.natlist(order)} {X.lst(X.pair(npair, zp), es)}"
+            if "err" in o2:
+                g(lhs, f"Err {err_lit(o2['err'])}")
+            elif "error" not in o2:
+                mpos = parse_pairs(o2["positions"], lambda c: c.z())
+                med = parse_pairs(o2["edges"], lambda c: c.int())
+                mcr = parse_pairs(o2["crossing"], lambda c: c.z())
+                g(lhs, f"Ok ({X.lst(zp, mpos)}, {X.lst(npair, med)}, {X.lst(zp, mcr)})")
+                counts["reindex"] += 1
+    # ---- replication
+    for line, o, _ in pick(xc["rep"], 12, 2 if quick else 6):
+        c = Cursor(line.split()[1:])
+        S = c.z()
+        P = c.list(lambda: (c.z(), c.z()))
+        pts = parse_pairs(o["points"], lambda c: c.z())
+        g(f"(padding_of {N(len(P))}, generate_point_array {Z(S)} {X.lst(zp, P)} (padding_of {N(len(P))}))", f"({Z(unhx(o['padding'][0]))}, {X.lst(zp, pts)})")
+        counts["replicate"] += 1
+    res = ctx.res
+    res.extra["extraction_crosscheck_goals_vm_compute"] = X.compile_goals("c03", "Model.Lattice Model.Delaunay Model.VoronoiPost Model.VoronoiPeriodic", body, "c03")
+    res.extra["extraction_crosscheck_cases"] = counts
+    res.extra["extraction_crosscheck_wall_s"] = X.LAST_WALL
 
 
 # ------------------------------------------------------------------ evaluation
@@ -672,6 +841,8 @@ def evaluate(ctx, cases, label, lloyd=True):
     runnable = [c for c in prepared if "line" in c]
     outs = run_driver_parallel(ctx.exe["c03"], [c["line"] for c in runnable], jobs=8)
     omap = {id(c): o for c, o in zip(runnable, outs)}
+    for c, o in zip(runnable, outs):
+        _xc_push(ctx, "cert", c["line"], o, len(c["points"]))
     ex = res.extra
     for k in ("nondense_skipped", "nondense_but_dual_ok", "nondense_dual_fails", "tiling_evaluated", "tiling_skipped_self_touching",
               "tiling_skipped_shift_changed_order", "lloyd_runs", "lloyd_skipped_precondition"):
@@ -896,7 +1067,10 @@ def run(ctx):
                     "coordinates either rounded to 30 binary digits (replication p+k exact) or raw float64; plus a 'grid' family (N=2..13 distinct points of a 1/8, 1/16, 1/32 grid, where "
                     "centroids fall EXACTLY on the cell boundary: evaluated for shift_vertices=True, where the float centroid is exact); a case counts (non-trivial, distinct by hash of points+shift) only when its "
                     "independent certificate validates, the density precondition holds and it is generic; everything else is in 'skipped'")
+    ctx.xc = {"cert": [], "post": [], "hyps": [], "reindex": [], "rep": []}
     evaluate(ctx, corpus_cases() + gen_cases(ctx.tier, ctx.seed), "S")
+    coq_crosscheck(ctx)      # extraction cross-check: a sample of the driver's answers re-derived inside Coq
+    ctx.xc = None
 
 
 def search(ctx):
